@@ -150,17 +150,6 @@ theorem ioffset_clamp_unb : ∀ (sh : List Nat) (st : List Int) (idx : List Nat)
             subst this; simp
           · simp [hs, hn]
 
-theorem unbroadcast_spec (a : SArr α) (hw : a.WF) :
-    Sub (unbroadcast a).shape a.shape ∧ (unbroadcast a).WF ∧
-      ∀ idx, InB idx a.shape → (unbroadcast a).at (clamp (unbroadcast a).shape idx) = a.at idx := by
-  refine ⟨unbShape_Sub a.shape a.strides hw, ?_, ?_⟩
-  · have := (unbShape_Sub a.shape a.strides hw).length
-    simp only [SArr.WF, unbroadcast] at *
-    omega
-  · intro idx hi
-    simp only [SArr.at, unbroadcast]
-    rw [ioffset_clamp_unb a.shape a.strides idx hi]
-
 /-! ### common broadcast shape -/
 
 theorem bshape_spec : ∀ {a b S : List Nat}, Sub a S → Sub b S →
@@ -238,6 +227,25 @@ theorem clamp_self : ∀ {S idx : List Nat}, InB idx S → clamp S idx = idx
         have : i = 0 := by omega
         simp [this]
       · simp [hs]
+
+theorem unbroadcast_spec (a : SArr α) (hw : a.WF) :
+    Sub (unbroadcast a).shape a.shape ∧ (unbroadcast a).WF ∧
+      ∀ idx, InB idx a.shape → (unbroadcast a).at (clamp (unbroadcast a).shape idx) = a.at idx := by
+  by_cases he : a.shape.any (· == 0) = true
+  · -- empty array: returned unchanged
+    have hu : unbroadcast a = a := by simp [unbroadcast, he]
+    rw [hu]
+    exact ⟨Sub.refl _, hw, fun idx hi => by rw [clamp_self hi]⟩
+  · have hu : unbroadcast a = { a with shape := unbShape a.shape a.strides } := by
+      simp [unbroadcast, he]
+    rw [hu]
+    refine ⟨unbShape_Sub a.shape a.strides hw, ?_, ?_⟩
+    · have := (unbShape_Sub a.shape a.strides hw).length
+      simp only [SArr.WF] at *
+      omega
+    · intro idx hi
+      simp only [SArr.at]
+      rw [ioffset_clamp_unb a.shape a.strides idx hi]
 
 /-! ### fresh (C-contiguous) results -/
 
